@@ -43,11 +43,29 @@ def shapes(rs: dict) -> list[str]:
                     back = True
     if cross:
         out.append("cross_routine_jump")
+    case_targets = {o["params"][-1] for o in ops if o["name"].startswith("Case") and o["name"] in dc.JUMPY and o["params"]}
+    for r in rs["ops"]:
+        for a, b in zip(r, r[1:]):
+            if b["off"] in case_targets and a["name"] not in ("Jump", "Return", "End", "Hold", "Destroy", "JumpCommon") \
+                    and not a["name"].startswith("Case") and not a["name"].startswith("Switch") and a["name"] not in SWITCH_HEADERS:
+                out.append("switch_fallthrough")
+                break
+    for r in rs["ops"]:
+        for a, b in zip(r, r[1:]):
+            if b["name"] == "Jump" and b["params"] and b["params"][-1] == a["off"] and a["name"] in dc.JUMPY and a["name"] not in ("Jump", "Call"):
+                out.append("empty_body_loop")
+                break
+    if "empty_body_loop" not in out and any(o["name"] in dc.JUMPY and o["name"] not in ("Jump", "Call") and o["params"] and o["params"][-1] == o["off"] for o in ops):
+        out.append("empty_body_loop")     # a test op that branches to itself ('while (c) { }')
     if rs.get("_unreachable"):
         out.append("unreachable_ops")
     if back:
         out.append("backward_jump")
     return out
+
+
+SWITCH_HEADERS = {"message_SwitchMenu", "message_SwitchMenu2", "ProcessSpecial", "message_Menu", "main_EnterAdventure", "main_EnterRescueUser",
+                  "main_EnterTraining", "main_EnterTraining2"}
 
 
 def first_kind(rs: dict, stage: str) -> str:
@@ -144,7 +162,7 @@ def run(run: core.Run) -> int:
                     sets.append({"rs": json.loads(l)["rs"], "origin": {"kind": "corpus"}})
         sets += dc.routine_sets_from_programs(run, pool, n, cfgs_for(run.tier))
         sets = wf_filter(sets, drv, jobs)
-        results = dc.pipeline_all(pool, sets)
+        results = dc.pipeline_all(pool, sets, timeout=30, single_timeout=8)
         fails, cnt = evaluate(sets, results, drv, jobs)
         n_viol = 0
         shape_cnt: Counter = Counter()
